@@ -300,7 +300,9 @@ def mk_replay(cls, op, argnames):
 NATIVE_RESULTS = []
 NATIVE_CLASS = {"mfs_ops": "Multi_field_operators_with_small_characteristics",
                 "mfs_sh": "Shared_multi_field_element_with_small_characteristics",
-                "mfs_el": "Multi_field_element_with_small_characteristics"}
+                "mfs_el": "Multi_field_element_with_small_characteristics",
+                "mf_ops": "Multi_field_operators", "mf_sh": "Shared_multi_field_element", "mf_el": "Multi_field_element",
+                "mf_coh": "persistent_cohomology::Multi_field"}
 
 
 def mk_replay_native(key):
@@ -479,6 +481,9 @@ def units(tier):
     element_operator_units(U)
     small_multifield_units(U, thorough)
     z2_element_units(U)
+    gmp_units(U)
+    gmp_element_units(U)
+    gmp_cohomology_units(U)
     return U
 
 
@@ -985,12 +990,231 @@ def ops_units(pr, U, thorough):
          desc="are_equal: comparison by residue")
 
 
+def gmp_units(U):
+    """Multi_field_operators.h (Element = mpz_class): mpz_class bound to a 64-bit integer (P < 2^31) with operand bounds that keep
+    every intermediate value in range (so machine arithmetic equals GMP's), GMP calls as assumed contracts
+    (contracts/c10_gmp_glue.h).  get_value_inplace is enforced against the canonical representative; every other
+    operation is enforced with get_value_inplace replaced by that contract."""
+    path = F + "Multi_field_operators.h"
+    P = "productOfAllCharacteristics_"
+    G = "typedef mpz_class Element; typedef mpz_class Characteristic;\nCharacteristic productOfAllCharacteristics_;\nlong nondet_long(void);\n"
+    GS = [(r"(\(\*\w+\)|\b\w+)\.get_mpz_t\(\)", r"\1", 0), (r"\bmpz_mod\(", "VP_MPZ_MOD(", 0), (r"\bmpz_sub\(", "VP_MPZ_SUB(", 0),
+          (r"get_value_inplace\(\(\*(\w+)\)\)", r"get_value_inplace(\1)", 0),
+          (r"(\(\*\w+\)|\b\w+) \*= ([^;]+);", r"\1 = vp_mpz_mul(\1, \2);", 0), (r"\b(\w+) \* (\w+)\b", r"vp_mpz_mul(\1, \2)", 0)]
+    PRE = f"{P} >= 2 && {P} < BNDP"
+    c_gvi = f"""
+__CPROVER_requires({PRE} && *e > -VP_LMAX)
+__CPROVER_ensures(*e == NORM(__CPROVER_old(*e), {P}))
+__CPROVER_assigns(*e)
+"""
+    def f_gvi(canary=None):
+        return Fn(path, r"void get_value_inplace\(Element& e\) const", "get_value_inplace", c_gvi, subs=GS, canary=canary)
+    U.append(Unit("mf_ops.get_value_inplace", "C10", [f_gvi((r">= productOfAllCharacteristics_", "> productOfAllCharacteristics_"))], enforce="get_value_inplace",
+                  includes=["c10_gmp_glue.h"], globals_=G, inputs=["in_e", P], replay=mk_replay_native("mf_ops"),
+                  runs=[Run(backend="sat", timeout=300)],
+                  harness=H(f"  long in_e = nondet_long(); long x_e = in_e; {P} = nondet_long();", "get_value_inplace(&x_e);"),
+                  desc="Multi_field_operators::get_value_inplace (GMP): the element becomes the canonical representative in [0, P) - unchanged inside [0, P), shifted by P inside [-P, 0), mpz_mod otherwise"))
+    # operations: (name, signature regex, written operand or None, exact expression over the operands, operand bound, extra subs, call, canary)
+    B61, B31 = "BNDS", "BNDP"
+    def rng(vs, b):
+        return " && ".join(f"{v} > -({b}) && {v} < ({b})" for v in vs)
+    OPS = [
+        ("add_inplace", r"void add_inplace\(Element& e1, const Element& e2\) const", "e1", "{e1} + {e2}", B61, ["e1", "e2"], (r"\+=", "-=")),
+        ("subtract_inplace_front", r"void subtract_inplace_front\(Element& e1, const Element& e2\) const", "e1", "{e1} - {e2}", B61, ["e1", "e2"], (r"-=", "+=")),
+        ("subtract_inplace_back", r"void subtract_inplace_back\(const Element& e1, Element& e2\) const", "e2", "{e1} - {e2}", B61, ["e1", "e2"], (r"VP_MPZ_SUB\(\(\*e2\), e1, \(\*e2\)\)", "VP_MPZ_SUB((*e2), (*e2), e1)")),
+        ("multiply_inplace", r"void multiply_inplace\(Element& e1, const Element& e2\) const", "e1", "VP_MUL({e1}, {e2})", B31, ["e1", "e2"], (r"vp_mpz_mul\(\(\*e1\), e2\)", "vp_mpz_mul(e2, e2)")),
+        ("multiply_and_add_inplace_front", r"void multiply_and_add_inplace_front\(Element& e, const Element& m, const Element& a\) const", "e", "VP_MUL({e}, {m}) + {a}", B31, ["e", "m", "a"], (r"\+=", "-=")),
+        ("multiply_and_add_inplace_back", r"void multiply_and_add_inplace_back\(const Element& e, const Element& m, Element& a\) const", "a", "{a} + VP_MUL({e}, {m})", B31, ["e", "m", "a"], (r"vp_mpz_mul\(e, m\)", "vp_mpz_mul(m, m)")),
+        ("add_and_multiply_inplace_front", r"void add_and_multiply_inplace_front\(Element& e, const Element& a, const Element& m\) const", "e", "VP_MUL({e} + {a}, {m})", B31, ["e", "a", "m"], (r"\+=", "-=")),
+        ("add_and_multiply_inplace_back", r"void add_and_multiply_inplace_back\(const Element& e, const Element& a, Element& m\) const", "m", "VP_MUL({m}, {e} + {a})", B31, ["e", "a", "m"], (r"e \+ a", "e - a")),
+    ]
+    for name, sig, ref, expr, bnd, params, canary in OPS:
+        cur = {v: (f"*{v}" if v == ref else v) for v in params}
+        old = {v: (f"__CPROVER_old(*{v})" if v == ref else v) for v in params}
+        con = f"""
+__CPROVER_requires({PRE} && {rng([cur[v] for v in params], bnd)})
+__CPROVER_ensures(*{ref} == NORM({expr.format(**old)}, {P}))
+__CPROVER_assigns(*{ref})
+"""
+        fn = Fn(path, sig, name, con, subs=GS, canary=canary)
+        decl = " ".join(f"long in_{v} = nondet_long(); long x_{v} = in_{v};" for v in params)
+        args = ", ".join((f"&x_{v}" if v == ref else f"in_{v}") for v in params)
+        U.append(Unit(f"mf_ops.{name}", "C10", [f_gvi(), fn], enforce=name, replace=["get_value_inplace"], includes=["c10_gmp_glue.h"], globals_=G,
+                      inputs=[f"in_{v}" for v in params] + [P], replay=mk_replay_native("mf_ops"), runs=[Run(backend="sat", timeout=300)],
+                      harness=H(f"  {decl} {P} = nondet_long();", f"{name}({args});"),
+                      desc=f"Multi_field_operators::{name} (GMP): the designated operand becomes the canonical representative of the exact integer expression {expr.format(**{v: v for v in params})}; nothing else is written"))
+    # are_equal: comparison by residue
+    c_gv = f"""
+__CPROVER_requires({PRE} && e > -VP_LMAX)
+__CPROVER_ensures(__CPROVER_return_value == NORM(e, {P}))
+__CPROVER_assigns()
+"""
+    f_gv = Fn(path, r"Element get_value\(Element e\) const", "get_value", c_gv, subs=GS + [(r"get_value_inplace\(e\)", "get_value_inplace(&e)")],
+              canary=(r"return e;", "return e + 1;"))
+    U.append(Unit("mf_ops.get_value", "C10", [f_gvi(), f_gv], enforce="get_value", replace=["get_value_inplace"], includes=["c10_gmp_glue.h"], globals_=G,
+                  inputs=["in_e", P], replay=mk_replay_native("mf_ops"), runs=[Run(backend="sat", timeout=300)],
+                  harness=H(f"  long in_e = nondet_long(); {P} = nondet_long();", "get_value(in_e);"),
+                  desc="Multi_field_operators::get_value (GMP): the canonical representative of the argument"))
+    f_gv2 = Fn(path, r"Element get_value\(Element e\) const", "get_value", c_gv, subs=GS + [(r"get_value_inplace\(e\)", "get_value_inplace(&e)")])
+    f_eq = Fn(path, r"bool are_equal\(const Element& e1, const Element& e2\) const", "are_equal", f"""
+__CPROVER_requires({PRE} && {rng(['e1', 'e2'], 'BNDS')})
+__CPROVER_ensures(__CPROVER_return_value == (NORM(e1, {P}) == NORM(e2, {P})))
+__CPROVER_assigns()
+""", subs=GS, canary=(r"==", "!="))
+    U.append(Unit("mf_ops.are_equal", "C10", [f_gvi(), f_gv2, f_eq], enforce="are_equal", replace=["get_value"], includes=["c10_gmp_glue.h"], globals_=G,
+                  inputs=["in_e1", "in_e2", P], replay=mk_replay_native("mf_ops"), runs=[Run(backend="sat", timeout=300)],
+                  harness=H(f"  long in_e1 = nondet_long(), in_e2 = nondet_long(); {P} = nondet_long();", "are_equal(in_e1, in_e2);"),
+                  desc="Multi_field_operators::are_equal (GMP): comparison of the canonical representatives"))
+
+def gmp_element_units(U):
+    """Multi_field.h / Multi_field_shared.h (GMP element classes): the friend operators, same binding and assumed GMP
+    contracts as gmp_units.  R(v) = v inside [0, P), mpz_mod(v, P) elsewhere is the residue of an arbitrary integer."""
+    P = "productOfAllCharacteristics_"
+    GS = [(r"(\(\*\w+\)(?:\.\w+)?|\b\w+(?:\.\w+)?)\.get_mpz_t\(\)", r"\1", 0), (r"\bmpz_mod\(", "VP_MPZ_MOD(", 0), (r"\bmpz_sub\(", "VP_MPZ_SUB(", 0),
+          (r"(\(\*\w+\)\.\w+|\b\w+(?:\.\w+)?) \*= ([^;]+);", r"\1 = vp_mpz_mul(\1, \2);", 0), (r"Element (\w+)\((\w+)\);", r"Element \1 = \2;", 0)]
+    PRE = f"{P} >= 2 && {P} < BNDP"
+    RV = f"((v >= 0 && v < {P}) ? v : __CPROVER_uninterpreted_mpz_mod(v, {P}))"
+    for key, hdr, cls in (("mf_el", "Multi_field.h", "Multi_field_element"), ("mf_sh", "Multi_field_shared.h", "Shared_multi_field_element")):
+        path = F + hdr
+        G = f"typedef mpz_class Element; typedef mpz_class Characteristic;\ntypedef struct {{ Element element_; }} {cls};\nCharacteristic {P};\nlong nondet_long(void);\n"
+        inv = lambda x: f"{x}.element_ >= 0 && {x}.element_ < {P}"   # noqa: E731
+        OPS = [
+            ("iadd_ff", rf"friend void operator\+=\({cls}& f1, {cls} const& f2\)", "operator\\+=", "f1", f"NORM(__CPROVER_old((*f1).element_) + f2.element_, {P})", f"{inv('(*f1)')} && {inv('f2')}", ["f1:E", "f2:E"], (r"\+=", "-=")),
+            ("iadd_fv", rf"friend void operator\+=\({cls}& f, (?:const Element& v|Element const v)\)", "operator\\+=", "f", f"NORM(__CPROVER_old((*f).element_) + v, {P})", f"{inv('(*f)')} && v > -BNDS && v < BNDS", ["f:E", "v:I"], (r"\+=", "-=")),
+            ("add_vf", rf"friend Element operator\+\(Element v, {cls} const& f\)", "operator\\+", None, f"NORM(v + f.element_, {P})", f"{inv('f')} && v > -BNDS && v < BNDS", ["v:I", "f:E"], (r"\+=", "-=")),
+            ("isub_ff", rf"friend void operator-=\({cls}& f1, {cls} const& f2\)", "operator-=", "f1", f"NORM(__CPROVER_old((*f1).element_) - f2.element_, {P})", f"{inv('(*f1)')} && {inv('f2')}", ["f1:E", "f2:E"], (r"-=", "+=")),
+            ("isub_fv", rf"friend void operator-=\({cls}& f, (?:const Element& v|Element const v)\)", "operator-=", "f", f"NORM(__CPROVER_old((*f).element_) - v, {P})", f"{inv('(*f)')} && v > -BNDS && v < BNDS", ["f:E", "v:I"], (r"-=", "+=")),
+            ("sub_vf", rf"friend Element operator-\(Element v, {cls} const& f\)", "operator-", None, f"NORM({RV} - f.element_, {P})", f"{inv('f')} && v > -BNDS && v < BNDS", ["v:I", "f:E"], (r"v -= f\.element_;", "v += f.element_;")),
+            ("imul_ff", rf"friend void operator\*=\({cls}& f1, {cls} const& f2\)", "operator\\*=", "f1", f"NORM(VP_MUL(__CPROVER_old((*f1).element_), f2.element_), {P})", f"{inv('(*f1)')} && {inv('f2')}", ["f1:E", "f2:E"], (r"vp_mpz_mul\(\(\*f1\)\.element_, f2\.element_\)", "vp_mpz_mul(f2.element_, f2.element_)")),
+            ("imul_fv", rf"friend void operator\*=\({cls}& f, (?:const Element& v|Element const v)\)", "operator\\*=", "f", f"NORM(VP_MUL(__CPROVER_old((*f).element_), v), {P})", f"{inv('(*f)')} && v > -BNDP && v < BNDP", ["f:E", "v:I"], (r"vp_mpz_mul\(\(\*f\)\.element_, v\)", "vp_mpz_mul(v, v)")),
+            ("mul_vf", rf"friend Element operator\*\(Element v, {cls} const& f\)", "operator\\*", None, f"NORM(VP_MUL(v, f.element_), {P})", f"{inv('f')} && v > -BNDP && v < BNDP", ["v:I", "f:E"], (r"vp_mpz_mul\(v, f\.element_\)", "vp_mpz_mul(v, v)")),
+            ("eq_vf", rf"friend bool operator==\(const Element& v, const {cls}& f\)", "operator==", None, f"({RV} == f.element_)", f"{inv('f')} && v > -BNDS && v < BNDS", ["v:I", "f:E"], (r"return e == f\.element_;", "return e != f.element_;")),
+            ("eq_fv", rf"friend bool operator==\(const {cls}& f, const Element& v\)", "operator==", None, f"({RV} == f.element_)", f"{inv('f')} && v > -BNDS && v < BNDS", ["f:E", "v:I"], (r"return e == f\.element_;", "return e != f.element_;")),
+        ]
+        for name, sig, opname, ref, spec, pre, params, canary in OPS:
+            res = f"(*{ref}).element_" if ref else "__CPROVER_return_value"
+            con = f"""
+__CPROVER_requires({PRE} && {pre})
+__CPROVER_ensures({res} == {spec})
+__CPROVER_assigns({'(*' + ref + ').element_' if ref else ''})
+"""
+            fn = Fn(path, sig, f"{key}_{name}", con, sig_subs=[(opname, f"{key}_{name}")], subs=GS, canary=canary)
+            decls, args, inputs = [], [], []
+            for prm in params:
+                nm, ty = prm.split(":")
+                if ty == "E":
+                    decls.append(f"{cls} in_{nm}; in_{nm}.element_ = nondet_long(); {cls} x_{nm} = in_{nm};")
+                    args.append(f"&x_{nm}" if nm == ref else f"in_{nm}")
+                    inputs.append(f"in_{nm}")
+                else:
+                    decls.append(f"long in_{nm} = nondet_long();")
+                    args.append(f"in_{nm}")
+                    inputs.append(f"in_{nm}")
+            U.append(Unit(f"{key}.{name}", "C10", [fn], enforce=f"{key}_{name}", includes=["c10_gmp_glue.h"], globals_=G,
+                          inputs=inputs + [P], replay=mk_replay_native(key), runs=[Run(backend="sat", timeout=300)],
+                          harness=H("  " + " ".join(decls) + f" {P} = nondet_long();", f"{key}_{name}({', '.join(args)});"),
+                          desc=f"{cls} (GMP), {opname.replace(chr(92), '')} [{name}]: on a reduced element and an arbitrary integer the result is the canonical representative of the exact expression (comparison: by residue)"))
+
+def gmp_cohomology_units(U):
+    """Persistent_cohomology/Multi_field.h (the multi-field coefficient class of the cohomology engine, Element = mpz_class)."""
+    path = "src/Persistent_cohomology/include/gudhi/Persistent_cohomology/Multi_field.h"
+    P = "prod_characteristics_"
+    NPR = 3
+    G = (f"typedef mpz_class Element;\n#define NPR {NPR}\nElement {P}; Element mult_id_all; Element add_id_all; int primes_[NPR]; unsigned primes_n; Element Uvect_[NPR];\n"
+         "Element g_mi; Element g_mi_arg; unsigned g_mi_calls;\nlong nondet_long(void); int nondet_int(void); unsigned nondet_uint(void);\n"
+         "Element multiplicative_identity_all(void); Element additive_identity(void); Element multiplicative_identity(Element Q);\n")
+    GS = [(r"(\(\*\w+\)|\b\w+)\.get_mpz_t\(\)", r"\1", 0), (r"\bmpz_gcd\(", "VP_MPZ_GCD(", 0), (r"\bmpz_invert\(", "VP_MPZ_INVERT(", 0),
+          (r"\((\w+) % (\w+\[\w+\])\)", r"(vp_mpz_tdiv_r(\1, \2))", 0),
+          (r"\(((?:[^()%]|\([^()]*\))*)\) % (\w+(?:\[\w+\])?)", r"vp_mpz_tdiv_r(\1, \2)", 0),
+          (r"\b(\w+) / (\w+)\b", r"vp_mpz_tdiv_q(\1, \2)", 0),
+          (r"(-?\b\w+) \* (\w+\([^()]*\)|\w+)", r"vp_mpz_mul(\1, \2)", 0),
+          (r"primes_\.size\(\)", "primes_n", 0), (r"\(Element\)1\b", "1", 0),
+          (r"std::pair<Element, Element>\(([^;]*)\);", r"(vp_pair){\1};", 0), (r"return \{ ([^;]*) \};", r"return (vp_pair){ \1 };", 0),
+          (r"multiplicative_identity\(\)", "multiplicative_identity_all()", 0)]
+    PRE = f"{P} >= 2 && {P} < BNDP"
+    red = lambda v: f"{v} >= 0 && {v} < {P}"   # noqa: E731
+    # plus_times_equal: x + w * y, reduced into [0, P)
+    c_pte = f"""
+__CPROVER_requires({PRE} && {red('x')} && {red('y')} && {red('w')} && VP_MUL(w, y) > -BNDP * (BNDP / 2) && VP_MUL(w, y) < BNDP * (BNDP / 2))
+__CPROVER_ensures(__CPROVER_return_value == (TDIVR(x + VP_MUL(w, y), {P}) < 0 ? TDIVR(x + VP_MUL(w, y), {P}) + {P} : TDIVR(x + VP_MUL(w, y), {P})))
+__CPROVER_ensures(__CPROVER_return_value >= 0 && __CPROVER_return_value < {P})
+__CPROVER_assigns()
+"""
+    def f_pte(canary=None):
+        return Fn(path, r"Element plus_times_equal\(const Element& x, const Element& y, const Element& w\)", "plus_times_equal", c_pte, subs=GS, canary=canary)
+    U.append(Unit("mf_coh.plus_times_equal", "C10", [f_pte((r"if \(result < 0\)", "if (result > 0)"))], enforce="plus_times_equal", includes=["c10_gmp_glue.h"], globals_=G,
+                  inputs=["in_x", "in_y", "in_w", P], replay=mk_replay_native("mf_coh"), runs=[Run(backend="sat", timeout=300)],
+                  harness=H(f"  long in_x = nondet_long(), in_y = nondet_long(), in_w = nondet_long(); {P} = nondet_long();", "plus_times_equal(in_x, in_y, in_w);"),
+                  desc="persistent_cohomology::Multi_field::plus_times_equal (GMP): x + w*y reduced with the truncating operator% and lifted into [0, P)"))
+    for nm, sig, spec, call in (("times", r"Element times\(const Element& y, const Element& w\)", "0 + VP_MUL(w, y)", "times(in_y, in_w);"),
+                                ("plus_equal", r"Element plus_equal\(const Element& x, const Element& y\)", "x + VP_MUL(1, y)", "plus_equal(in_x, in_y);")):
+        prm = ["y", "w"] if nm == "times" else ["x", "y"]
+        mb = "VP_MUL(w, y) > -BNDP * (BNDP / 2) && VP_MUL(w, y) < BNDP * (BNDP / 2)" if nm == "times" else "VP_MUL(1, y) > -BNDP * (BNDP / 2) && VP_MUL(1, y) < BNDP * (BNDP / 2)"
+        con = f"""
+__CPROVER_requires({PRE} && {' && '.join(red(v) for v in prm)} && {mb})
+__CPROVER_ensures(__CPROVER_return_value == (TDIVR({spec}, {P}) < 0 ? TDIVR({spec}, {P}) + {P} : TDIVR({spec}, {P})))
+__CPROVER_ensures(__CPROVER_return_value >= 0 && __CPROVER_return_value < {P})
+__CPROVER_assigns()
+"""
+        fn = Fn(path, sig, nm, con, subs=GS, canary=(r"plus_times_equal\((\w+), (\w+), (\w+)\)", r"plus_times_equal(\1, \2, \2)"))
+        U.append(Unit(f"mf_coh.{nm}", "C10", [f_pte(), fn], enforce=nm, replace=["plus_times_equal"], includes=["c10_gmp_glue.h"], globals_=G,
+                      inputs=["in_x", "in_y", "in_w", P], replay=mk_replay_native("mf_coh"), runs=[Run(backend="sat", timeout=300)],
+                      harness=H(f"  long in_x = nondet_long(), in_y = nondet_long(), in_w = nondet_long(); {P} = nondet_long();", call),
+                      desc=f"persistent_cohomology::Multi_field::{nm} (GMP): plus_times_equal on the right operands"))
+    # times_minus: the result is a reduced element (its value -x*y mod P is swept natively)
+    f_tm = Fn(path, r"Element times_minus\(const Element& x, const Element& y\)", "times_minus", f"""
+__CPROVER_requires({PRE} && {red('x')} && {red('y')})
+__CPROVER_ensures(__CPROVER_return_value >= 0 && __CPROVER_return_value < {P})
+__CPROVER_assigns()
+""", subs=GS, canary=(r"if \((\w+) < 0\) \1 \+= prod_characteristics_;", r"if (\1 <= 0) \1 += prod_characteristics_;"))
+    U.append(Unit("mf_coh.times_minus", "C10", [f_tm], enforce="times_minus", includes=["c10_gmp_glue.h"], globals_=G,
+                  inputs=["in_x", "in_y", P], replay=mk_replay_native("mf_coh"), runs=[Run(backend="sat", timeout=300)],
+                  harness=H(f"  long in_x = nondet_long(), in_y = nondet_long(); {P} = nondet_long();", "times_minus(in_x, in_y);"),
+                  desc="persistent_cohomology::Multi_field::times_minus (GMP): the result is a reduced element of [0, P) - in particular 0, not P, when x*y is a multiple of P"))
+    # multiplicative_identity(Q): sum of the idempotents of the primes dividing Q, reduced modulo the WHOLE product
+    Gmi = G + f"""
+static Element x_mi(Element Q) {{ Element s = 0; for (unsigned k = 0; k < NPR; k++) if (k < primes_n && x_tdiv_r(Q, primes_[k]) == 0) s = x_tdiv_r(s + Uvect_[k], {P}); return s; }}
+static bool uv_ok(void) {{ bool ok = primes_n <= NPR; for (unsigned k = 0; k < NPR; k++) ok = ok && primes_[k] >= 2 && Uvect_[k] >= 0 && Uvect_[k] < {P}; return ok; }}
+"""
+    f_mia = Fn(path, r"const Element& multiplicative_identity\(\) const", "multiplicative_identity_all", "", sig_subs=[(r"const Element&", "Element")])
+    f_mi = Fn(path, r"Element multiplicative_identity\(Element Q\)", "multiplicative_identity", f"""
+__CPROVER_requires({PRE} && uv_ok() && Q >= 1 && Q <= {P})
+__CPROVER_ensures(__CPROVER_return_value == (Q == {P} ? mult_id_all : x_mi(Q)))
+__CPROVER_assigns()
+""", subs=GS, canary=(r"Uvect_\[idx\]", "Uvect_[0]"))
+    U.append(Unit("mf_coh.multiplicative_identity", "C10", [f_mia, f_mi], enforce="multiplicative_identity", includes=["c10_gmp_glue.h"], globals_=Gmi, unwind=NPR + 2, route="B",
+                  bound=f"ranges with at most {NPR} primes; primes, idempotents and Q symbolic", inputs=["in_q", P, "primes_n"], replay=mk_replay_native("mf_coh"),
+                  runs=[Run(backend="sat", timeout=300)],
+                  harness=H(f"  long in_q = nondet_long(); {P} = nondet_long(); primes_n = nondet_uint();\n  for (int k = 0; k < NPR; k++) {{ primes_[k] = nondet_int(); Uvect_[k] = nondet_long(); }}", "multiplicative_identity(in_q);"),
+                  desc="persistent_cohomology::Multi_field::multiplicative_identity(Q) (GMP): the sum of the idempotents U_p over the primes p dividing Q, each partial sum reduced modulo the product of ALL the primes of the range"))
+    # inverse(x, QS)
+    Ginv = G + "typedef struct { Element first; Element second; } vp_pair;\n"
+    stub_mi = Fn(path, r"Element multiplicative_identity\(Element Q\)", "multiplicative_identity", """
+__CPROVER_ensures(__CPROVER_return_value == g_mi && g_mi_arg == Q && g_mi_calls == __CPROVER_old(g_mi_calls) + 1)
+__CPROVER_assigns(g_mi_arg, g_mi_calls)
+""", subs=GS)
+    f_mia2 = Fn(path, r"const Element& multiplicative_identity\(\) const", "multiplicative_identity_all", "", sig_subs=[(r"const Element&", "Element")])
+    f_ai = Fn(path, r"const Element& additive_identity\(\) const", "additive_identity", "", sig_subs=[(r"const Element&", "Element")])
+    GCD, INV = "__CPROVER_uninterpreted_mpz_gcd(x, QS)", "__CPROVER_uninterpreted_mpz_invert"
+    f_inv = Fn(path, r"std::pair<Element, Element> inverse\(Element x, Element QS\)", "inverse", f"""
+__CPROVER_requires({PRE} && {red('x')} && QS >= 1 && QS <= {P} && g_mi_calls == 0 && g_mi >= 0 && g_mi < {P})
+__CPROVER_ensures({GCD} != QS || (__CPROVER_return_value.first == add_id_all && __CPROVER_return_value.second == mult_id_all && g_mi_calls == 0))
+__CPROVER_ensures({GCD} == QS || (__CPROVER_return_value.second == TDIVQ(QS, {GCD}) && g_mi_calls == 1 && g_mi_arg == TDIVQ(QS, {GCD})))
+__CPROVER_ensures({GCD} == QS || __CPROVER_return_value.first == TDIVR(VP_MUL({INV}(x, TDIVQ(QS, {GCD})), g_mi), {P}))
+__CPROVER_assigns(g_mi_arg, g_mi_calls)
+""", sig_subs=[(r"std::pair<Element, Element>", "vp_pair")], subs=GS, canary=(r"QR == QS", "QR != QS"))
+    U.append(Unit("mf_coh.inverse", "C10", [f_ai, f_mia2, stub_mi, f_inv], enforce="inverse", replace=["multiplicative_identity"], includes=["c10_gmp_glue.h"], globals_=Ginv,
+                  inputs=["in_x", "in_qs", P], replay=mk_replay_native("mf_coh"), runs=[Run(backend="sat", timeout=300)],
+                  harness=H(f"  long in_x = nondet_long(), in_qs = nondet_long(); {P} = nondet_long(); g_mi_calls = 0;", "inverse(in_x, in_qs);"),
+                  desc="persistent_cohomology::Multi_field::inverse(x, QS) (GMP): with g = gcd(x, QS): (0, 1) when g == QS; otherwise T = QS / g is returned as the invertibility sub-product and the value is invert(x, T) times the partial identity OF T, reduced modulo the whole product"))
+
 TRUSTED = [
     "vp/prelude.h: spec functions RES_U/ADDMOD/SUBMOD/MATHMOD64 and the R11 stand-ins (VP_SWAP_U, vp_gcd_u)",
     "template bindings: Unsigned_integer_type = unsigned int; Integer_type in {int, long, unsigned int}; other instantiations are not verified",
     "extraction rules R1-R13 of DESIGN.md section 3 (vp/extract.py): the verified text is the text of /repo rewritten by them on every run",
     "CBMC 6.11.0 (goto-cc, goto-instrument --dfcc, MiniSat), z3 4.8.12",
-    "GMP-based classes (Multi_field.h, Multi_field_shared.h, Multi_field_operators.h, Persistent_cohomology/Multi_field.h) are NOT under contract: mpz_class is an external library",
+    "GMP dependency (contracts/c10_gmp_glue.h, assumed contracts): mpz_class is bound to a 64-bit integer with operand bounds that keep every value in range; mpz_mod, operator%, operator/, operator* on mpz_class, mpz_gcd and mpz_invert are UNINTERPRETED functions with their documented ranges assumed (mpz_mod(a,m) in [0,m), identity on [0,m), a+m on [-m,0); |a % m| < m with the sign of a; gcd(a,b) in [1,b]; |a*b| < 2^62 for |a|,|b| < 2^31) - the contracts on the GMP classes therefore fix WHICH integer expression is formed and reduced and that results are canonical, not the arithmetic of GMP itself",
+    "of the GMP classes, under contract: every public operation of Multi_field_operators except set_characteristic / get_partial_inverse / get_partial_multiplicative_identity; the mixed and in-place friend operators and comparisons of Multi_field_element / Shared_multi_field_element; plus_times_equal, times, plus_equal, times_minus, multiplicative_identity(Q), inverse of persistent_cohomology::Multi_field.  NOT under contract: prime-range initialisation (mpz_nextprime, mpz_powm_ui), constructors, by-value wrappers, get_partial_inverse of the persistence_fields classes (bounded native stand-in only)",
 ]
 ASSUMPTIONS = [
     "unsigned wrap-around is defined behaviour (no --unsigned-overflow-check): the field code relies on it",
